@@ -43,12 +43,25 @@ def drive(tier):
                     continue
                 fam.append(gen.tx_json(dd))
                 objs.append(o)
+                if (t + len(objs)) % 2:
+                    call(hash, o)               # Python hash first, identifiers afterwards (cache slots must not collide)
                 k1, txid = call(o.GetTxid)
                 k2, wtxid = call(o.GetHash)
                 cached = getattr(o, "_cached_GetHash", None)
                 R.add("ids.obj", {"kind": "tx", "obj": gen.tx_json(dd), "mutable": mut},
                       {"txid": b2l(txid) if k1 == "ret" else [-1], "wtxid": b2l(wtxid) if k2 == "ret" else [-1],
                        "cached": b2l(cached) if cached is not None else []})
+        # a mutable object observed, edited to other field values, observed again: identifiers follow the values
+        if objs:
+            d2 = gen.gen_tx(r, lens=[0, 1, 75], nin=len(d["vin"]), nout=max(1, len(d["vout"])))
+            m = gen.build_tx(d, True)
+            call(m.GetTxid), call(m.GetHash), call(hash, m)
+            src = gen.build_tx(d2, True)
+            m.nVersion, m.nLockTime, m.vin, m.vout, m.wit = src.nVersion, src.nLockTime, src.vin, src.vout, src.wit
+            k1, txid = call(m.GetTxid)
+            k2, wtxid = call(m.GetHash)
+            R.add("ids.obj", {"kind": "tx", "obj": gen.tx_json(d2), "mutable": True, "after_edit": True},
+                  {"txid": b2l(txid) if k1 == "ret" else [-1], "wtxid": b2l(wtxid) if k2 == "ret" else [-1], "cached": []})
         eq = [[bool(a == b) for b in objs] for a in objs]
         ne_ok = all(bool(a != b) == (not eq[i][j]) for i, a in enumerate(objs) for j, b in enumerate(objs))
         ph = hash_classes([hash(o) for o in objs])
@@ -76,6 +89,9 @@ def drive(tier):
             js = gen.block_json(d)
             fam.append(js)
             objs.append(blk)
+            if (b + cnt) % 2:
+                call(hash, blk)             # used as a set member / dict key before its hash is asked for
+                call(lambda: blk == blk)
             k1, bh = call(blk.GetHash)
             k2, hh = call(lambda: blk.get_header().GetHash())
             cached = getattr(blk, "_cached_GetHash", None)
